@@ -171,6 +171,9 @@ func vfStrOf(raw json.RawMessage) string {
 func vfParamStr(name string) string { return vfStrOf(vfNext("vfParamStr", name)) }
 func vfBytes(name string, n int) string { return vfStrOf(vfNext("vfBytes", name)) }
 func vfParamInt(name string) int    { return int(vfU(vfNext("vfParamInt", name))) }
+func vfChoiceStr(name string, opts ...string) string {
+	return opts[int(vfU(vfNext("vfChoiceStr", name)))%len(opts)]
+}
 func vfUFInt(name string, args ...int) int {
 	return int(vfU(vfNext("vfUFInt", name)))
 }
@@ -195,6 +198,7 @@ func vfFail(id string) {
 	panic(vfStop{"fail"})
 }
 func vfNote(s string) {}
+func vfAllocCap(n int, id string) {}
 '''
 
 TEST_TMPL = r'''package PKGNAME
